@@ -14,12 +14,13 @@ Fixpoint upd {A} (l : list A) (i : nat) (f : A -> A) : list A :=
   | x :: r, O => f x :: r
   | x :: r, S i' => x :: upd r i' f
   end.
-Definition set (m : mat) (i j : nat) (v : Q) : mat := upd m i (fun row => upd row j (fun _ => v)).
+(* values are kept in lowest terms (Qred) so that exact arithmetic stays small *)
+Definition set (m : mat) (i j : nat) (v : Q) : mat := upd m i (fun row => upd row j (fun _ => Qred v)).
 Definition pget (p : list nat) (i : nat) : nat := nth i p 0%nat.
 Definition pswap (p : list nat) (i j : nat) : list nat :=
   let a := pget p i in let b := pget p j in upd (upd p i (fun _ => b)) j (fun _ => a).
 Definition Qltb (a b : Q) : bool := negb (Qle_bool b a).
-Definition sumk (k : nat) (f : nat -> Q) : Q := fold_left (fun acc l => acc + f l) (seq 0 k) 0.
+Definition sumk (k : nat) (f : nat -> Q) : Q := fold_left (fun acc l => Qred (acc + f l)) (seq 0 k) 0.
 
 (* one step i of LUDecomp::exe; None = null pivot reported *)
 Definition lu_step (n : nat) (eps : Q) (st : mat * list nat) (i : nat) : option (mat * list nat) :=
@@ -50,7 +51,7 @@ Definition lu_decomp (n : nat) (eps : Q) (a : mat) : option (mat * list nat) :=
   fold_left (fun st i => match st with Some s => lu_step n eps s i | None => None end) (seq 0 n) (Some (a, seq 0 n)).
 
 Definition vget (v : list Q) (i : nat) : Q := nth i v 0.
-Definition vset (v : list Q) (i : nat) (x : Q) : list Q := upd v i (fun _ => x).
+Definition vset (v : list Q) (i : nat) (x : Q) : list Q := upd v i (fun _ => Qred x).
 
 (* LUSolve::back_substitute; check_eps = true adds the pivot tests of TinyMatrixSolveBase::back_substitute *)
 Definition back_substitute (n : nat) (eps : Q) (check_eps : bool) (m : mat) (p : list nat) (b : list Q) : option (list Q) :=
@@ -70,7 +71,7 @@ Definition back_substitute (n : nat) (eps : Q) (check_eps : bool) (m : mat) (p :
             let i := (n - 1 - i')%nat in       (* i = n-1 .. 1 *)
             let pi2 := (i - 1)%nat in
             let pi := pget p pi2 in
-            vset b pi2 (vget x pi - fold_left (fun acc j => acc + get m pi j * vget b j) (seq i (n - i)) 0))
+            vset b pi2 (vget x pi - fold_left (fun acc j => Qred (acc + get m pi j * vget b j)) (seq i (n - i)) 0))
           (seq 0 (n - 1)) b)
   end.
 
